@@ -110,6 +110,15 @@ func (f LeveldbDiskStorage) SetTableMeta(tbl *btapb.Table) {
 	verifPoint("disk.meta.afterRename", []byte(tbl.Name))
 }
 
+// DeleteTableMeta removes the persisted metadata of a deleted table, so that GetTables no longer reports it.
+// The row data directory is left behind; Create destroys it if the table is ever created again.
+func (f LeveldbDiskStorage) DeleteTableMeta(tbl *btapb.Table) {
+	outPath := filepath.Join(f.Root, tbl.Name) + ".table.proto"
+	if err := os.Remove(outPath); err != nil && !os.IsNotExist(err) {
+		f.errLog(err, "os.Remove %q", outPath)
+	}
+}
+
 func (f LeveldbDiskStorage) errLog(err error, format string, args ...interface{}) {
 	if f.ErrLog != nil {
 		f.ErrLog(err, fmt.Sprintf(format, args...))
